@@ -955,11 +955,12 @@ def get_input_string(
     def graph():
         return gg.GrammarGraph.from_grammar(grammar)
 
-    return (
-        safe(lambda: json.loads(inp))()
-        .map(DerivationTree.from_parse_tree)
-        .map(lambda tree: eassert(tree, graph().tree_is_valid(tree)))
-        .lash(lambda _: safe(lambda: solver().parse(inp, skip_check=True))())
+    def parse_json_tree() -> DerivationTree:
+        tree = DerivationTree.from_parse_tree(json.loads(inp))
+        return eassert(tree, graph().tree_is_valid(tree))
+
+    return safe(parse_json_tree)().lash(
+        lambda _: safe(lambda: solver().parse(inp, skip_check=True))()
     )
 
 
